@@ -230,7 +230,8 @@ pub fn run(prop: &str, tier: &str, replay: Option<&str>) -> i32 {
                 Err(p) => f.push(Finding::new("KEY-LOAD-PANIC", &what, p)),
                 Ok(Err(e)) => {
                     out.digest = fnv(format!("{:?}", std::mem::discriminant(&e)).as_bytes());
-                    if let Some(w) = want {
+                    // fixtures without the optional embedded public key ("np"): a back end may refuse them (ring does)
+                    if let Some(w) = want.filter(|_| !z.name.contains("np.")) {
                         f.push(Finding::new("KEY-LOAD-REFUSED", &what, format!("a {:?} {:?} key should load as {} but: {:?}", z.kind, z.format, w.name(), e)));
                     }
                 }
